@@ -577,6 +577,11 @@ def r02_18(run, model):
                        "Go: s declared and not used")
 
 
+def r02_19(run, model):
+    from rules import c01 as _c01
+    _c01.r01_9(run, model, only_fns=(r"::go::",), rid="R02.19", floor=18)
+
+
 def run(run, model):
     run.try_rule(r02_1, model)
     run.try_rule(r02_2, model)
@@ -598,6 +603,8 @@ def run(run, model):
     from rules import c06
     run.rule("R02.13", "no type switch on a variable that an enclosing type switch rebound at a struct type (shared with C06 R06.11)")
     run.try_rule(c06.r06_11, model)
+    # the Go-level rewrites (known-variant selection, dead-code elimination) leave invalid Go behind when a nested block is skipped
+    run.try_rule(r02_19, model)
     from rules import c08
     run.try_rule(c08.r08_1, model)
     from rules import c07
